@@ -18,6 +18,7 @@ TInit == RInit /\ l = 1 /\ bad = 0 /\ hstamp = <<>>
 
 TProg == /\ Is("Prog") /\ Step
          /\ routers' = {} /\ stream' = {} /\ delivered' = <<>> /\ taken' = <<>> /\ ended' = {} /\ everReg' = {}
+         /\ errTaken' = {}
          /\ hstamp' = <<>>
 
 TNormal ==
@@ -25,7 +26,7 @@ TNormal ==
   \/ Is("Route") /\ Step /\ UNCHANGED hstamp
        /\ IF Ev.found THEN Deliver(K, Ev.streaming) ELSE Drop(K)
   \/ Is("DeleteRouter") /\ Step /\ Delete(K) /\ Ev.routers = CountOnP(Ev.node) /\ UNCHANGED hstamp
-  \/ Is("CallRecv") /\ Step /\ Recv(K) /\ UNCHANGED hstamp
+  \/ Is("CallRecv") /\ Step /\ Recv(K, Ev.err) /\ UNCHANGED hstamp
   \/ Is("CallEnd") /\ Step /\ End(Ev.msg) /\ UNCHANGED hstamp
   \* the stamps of what the node's handler produced for a call (tok), by <<node, tok>>
   \/ Is("HStart") /\ Step /\ UNCHANGED rvars /\ hstamp' = (<<Ev.node, Ev.tok>> :> Ev.serial) @@ hstamp
